@@ -543,7 +543,37 @@ class Model:
         if name == "replace" and len(args) == 2 and all(a.ty is STR for a in args):
             return V(fn("str.replace_all_", z3.StringSort(), z3.StringSort(), z3.StringSort(), z3.StringSort())(t, args[0].term, args[1].term), STR)
         if name == "format":
-            raise Unsupported("str.format")
+            if not z3.is_string_value(t):
+                raise Unsupported("str.format on a computed format string")
+            import re as _re
+            fmt = t.as_string()
+            parts, pos, auto = [], 0, 0
+            for mt in _re.finditer(r"\{(\w*)\}|\{\{|\}\}", fmt):
+                if mt.start() > pos:
+                    parts.append(z3.StringVal(fmt[pos:mt.start()]))
+                tok = mt.group(0)
+                if tok == "{{" or tok == "}}":
+                    parts.append(z3.StringVal(tok[0]))
+                else:
+                    key = mt.group(1)
+                    if key == "":
+                        v = args[auto]
+                        auto += 1
+                    elif key.isdigit():
+                        v = args[int(key)]
+                    else:
+                        if key not in kwargs:
+                            raise Unsupported(f"str.format: missing key {key}")
+                        v = kwargs[key]
+                    parts.append(ex.to_str(v, st).term)
+                pos = mt.end()
+            if "{" in fmt[pos:] or "}" in fmt[pos:]:
+                raise Unsupported("str.format: unsupported replacement field")
+            if pos < len(fmt):
+                parts.append(z3.StringVal(fmt[pos:]))
+            if not parts:
+                return const("")
+            return V(z3.Concat(parts) if len(parts) > 1 else parts[0], STR)
         if name == "join" and len(args) == 1:
             a = args[0]
             if a.ty is TUPLE:
